@@ -12,7 +12,9 @@ RULE = ("every WKD-IBE object reached through the API (params with l=0..3 and si
         "count and -1 for every length off by 1..slot-1; unmarshal (checked and unchecked, destination arrays allocated as the Go binding does) reproduces an "
         "equal object (re-marshals to the same bytes, group elements equal, indices exact, recomputed pairing equal); corruptions: EACH embedded group-element "
         "position x EACH invalid encoding of the menu (off curve, no y, outside subgroup, wrong compression flag, malformed identity, non-canonical coordinate) must "
-        "make checked unmarshal return false. state = object; non-trivial = object with at least one array slot or a corruption")
+        "make checked unmarshal return false; unmarshal HISTORIES into one re-used destination object (every sequence of length <= 3 over {valid A, valid B, B with "
+        "each element invalid in turn, B one byte short} that ends with a valid buffer, Go-binding protocol with realloc semantics): the object must equal a fresh "
+        "object that received the last accepted buffer, in both encodings. state = object; non-trivial = object with at least one array slot or a corruption")
 ASSUMPTIONS = ["the wire layout used to locate element positions is the documented one in src/wkdibe/marshal.cpp / src/lqibe/marshal.cpp",
                "GT members are raw field bytes which the library does not validate"]
 CAN = 0x5C
@@ -194,6 +196,124 @@ class Objs:
         return bool(ok), obj, None
 
 
+class Reused:
+    """ONE destination object that is unmarshalled into again and again, with the caller-side protocol of the Go binding (set_length on
+    the same object, array re-sized to the reported count, old contents kept: realloc)"""
+
+    def __init__(self, W, kind):
+        self.W, self.L, self.N, self.kind = W, W.L, W.N, kind
+        if kind == "wk_params":
+            self.obj = wk.Params(self.N, 0)
+            self.arr = b""
+        elif kind == "wk_secretkey":
+            self.obj = wk.SecretKey(self.N, 0)
+            self.arr = b""
+        else:
+            self.buf = self.L.buf(self.L.size[kind], b"\xCD" * self.L.size[kind])
+
+    def unmarshal(self, data, comp, checked):
+        L, N, kind = self.L, self.N, self.kind
+        c, ch = (1 if comp else 0), (1 if checked else 0)
+        exact = ctypes.create_string_buffer(data, len(data))
+        if kind in ("wk_params", "wk_secretkey"):
+            what = kind[3:]
+            n = L.f("embedded_pairing_wkdibe_%s_set_length" % what)(self.obj.buf, exact, ffi.sz(len(data)), c)
+            if n < 0:
+                return False
+            esz = N.sz["g1"] if kind == "wk_params" else N.sz["wk_freeslot"]
+            old = self.arr
+            new = ctypes.create_string_buffer((old + bytes([CAN]) * (esz * n))[:esz * n] + bytes([CAN]) * (2 * esz), esz * (n + 2))   # realloc keeps the prefix
+            field = "wk_params.h" if kind == "wk_params" else "wk_secretkey.b"
+            ctypes.memmove(ctypes.byref(self.obj.buf, N.off[field]), ctypes.addressof(new).to_bytes(8, "little"), 8)
+            self.keep = new
+            ok = L.f("embedded_pairing_wkdibe_%s_unmarshal" % what)(self.obj.buf, exact, c, ch) & 1
+            self.arr = new.raw[:esz * n]
+            if new.raw[esz * n:] != bytes([CAN]) * (2 * esz):
+                return "overrun"
+            return bool(ok)
+        fn = {"wk_ciphertext": "embedded_pairing_wkdibe_ciphertext_unmarshal", "wk_signature": "embedded_pairing_wkdibe_signature_unmarshal",
+              "wk_masterkey": "embedded_pairing_wkdibe_masterkey_unmarshal"}[kind]
+        return bool(L.f(fn)(self.buf, exact, c, ch) & 1)
+
+    def object(self):
+        return self.obj.buf if self.kind in ("wk_params", "wk_secretkey") else self.buf
+
+
+def reuse_menu(W, W2, kind, history, comp, seed):
+    """buffers that take part in the unmarshal histories: the valid object A, a valid object B of the same shape from another
+    world, B with each element position invalid in turn, B one byte short"""
+    O, O2 = Objs(W), Objs(W2)
+    objsA, objsB = build_objects(W, {"history": history}), build_objects(W2, {"history": history})
+    name = {"wk_params": "params", "wk_secretkey": "secretkey", "wk_ciphertext": "ciphertext", "wk_signature": "signature", "wk_masterkey": "masterkey"}[kind]
+    _, objA, l, sig = objsA[name]
+    _, objB, l2, sig2 = objsB[name]
+    pos, total = layout(kind, comp, l, sig)
+    A, _ = O.marshal(kind, objA, comp, total)
+    B, _ = O2.marshal(kind, objB, comp, total)
+    menu = [("A", A, True), ("B", B, True)]
+    for off, g in pos:
+        bad, why = bad_encodings(g, comp, seed)[1]       # a curve point outside the subgroup: rejected only after it was parsed
+        menu.append(("B!%d" % off, B[:off] + bad + B[off + len(bad):], False))
+    if kind in ("wk_params", "wk_secretkey"):
+        menu.append(("B-1", B[:-1], False))
+    return menu, total, {"A": objA, "B": objB}
+
+
+def eval_reuse(case):
+    """explicit-state exploration over unmarshal histories into one object: after every history, the object must behave exactly like
+    a fresh object that received the last accepted buffer (marshals back to those bytes in BOTH encodings - the uncompressed form of
+    the parameters contains the pairing value, which the compressed form makes the library recompute)"""
+    import itertools
+    W = c11.world(case["cfg"], case["l"], case["sig"], case["seed"])
+    W2 = c11.world(case["cfg"], case["l"], case["sig"], case["seed"] + 7919)
+    kind, comp, checked = case["kind"], case["comp"], case["checked"]
+    menu, total, _ = reuse_menu(W, W2, kind, case.get("history"), comp, case["seed"])
+    by = {m[0]: m for m in menu}
+    msgs = []
+    seqs = case.get("seqs")
+    if seqs is None:
+        names = [m[0] for m in menu]
+        seqs = [list(t) for n in (1, 2, 3) for t in itertools.product(names, repeat=n) if by[t[-1]][2]]      # histories that end with a valid buffer
+    O = Objs(W)
+    for seq in seqs:
+        R = Reused(W, kind)
+        last_ok = None
+        for nm in seq:
+            _, data, valid = by[nm]
+            ok = R.unmarshal(data, comp, checked or not valid)     # invalid buffers are only ever offered to the validating parser
+            if ok == "overrun":
+                msgs.append("history %s: wrote beyond the destination array" % seq)
+                break
+            if ok != valid:
+                msgs.append("history %s: unmarshal(%s) returned %s" % (seq, nm, ok))
+                break
+            if ok:
+                last_ok = nm
+        else:
+            want = by[last_ok][1]
+            again, _ = O.marshal(kind, R.object(), comp, total)
+            if again != want:
+                msgs.append("history %s: the object does not marshal back to the last accepted buffer" % seq)
+            # the other encoding must equal what a fresh object gives for the same buffer
+            F = Reused(W, kind)
+            F.unmarshal(want, comp, checked)
+            l_, sig_ = (case["l"], case["sig"]) if kind == "wk_params" else (None, None)
+            if kind == "wk_params":
+                _, tot2 = layout(kind, not comp, case["l"], case["sig"])
+            elif kind == "wk_secretkey":
+                key = F.obj
+                _, tot2 = layout(kind, not comp, key.l, key.signatures)
+            else:
+                _, tot2 = layout(kind, not comp, 0, False)
+            o1, _ = O.marshal(kind, R.object(), not comp, tot2)
+            o2, _ = O.marshal(kind, F.object(), not comp, tot2)
+            if o1 != o2:
+                msgs.append("history %s: the re-used object differs from a fresh object that received the same last buffer (other encoding differs)" % seq)
+        if len(msgs) > 4:
+            break
+    return msgs, len(seqs)
+
+
 def build_objects(W, case):
     """returns {name: (kind, object buffer/struct, l, sig)} for one world + key history"""
     L, N = W.L, W.N
@@ -291,6 +411,8 @@ def check_object(W, name, kind, obj, l, sig, seed, do_corrupt):
 
 
 def eval_case(case):
+    if case["sub"] == "reuse":
+        return eval_reuse(case)[0]
     if case["sub"] == "lq":
         L = ffi.lib(case["cfg"])
         W = c11.world(case["cfg"], 0, False, case["seed"])
@@ -333,11 +455,30 @@ def shards(ctx):
         for i, (st, hists) in enumerate(sorted(reach.items(), key=lambda kv: str(kv[0]))):
             out.append({"sub": "key", "cfg": "asm" if i % 4 else ("c32" if i % 8 else "c64"), "l": U["l"], "sig": sig, "history": hists[0], "state": [st[0], list(st[1])], "corrupt": (i % 3 == 0)})
     ctx.extra["abstract_states"] = len(reach)
+    # unmarshal histories into one re-used destination object
+    hist_free2 = next((h[0] for st, h in sorted(reach.items(), key=lambda kv: str(kv[0])) if len(wk.free_slots(st[1])) >= min(2, U["l"]) and st[0] == "d"), None)
+    for kind in ("wk_params", "wk_secretkey", "wk_ciphertext", "wk_signature", "wk_masterkey"):
+        for comp in (True, False):
+            for checked in ((True, False) if kind in ("wk_params", "wk_secretkey") else (True,)):
+                out.append({"sub": "reuse", "cfg": "asm", "l": U["l"], "sig": True, "kind": kind, "comp": comp, "checked": checked, "history": hist_free2})
     return out
 
 
 def run_shard(ctx, shard):
     sub = shard["sub"]
+    if sub == "reuse":
+        case = dict(shard, seed=ctx.seed)
+        msgs, n = eval_reuse(case)
+        ctx.ok(True, "reuse-histories:" + shard["kind"], n=n)
+        ctx.sample({k: v for k, v in case.items() if k != "history"}, limit=1)
+        if msgs:
+            bad = msgs[0].split(":")[0].replace("history ", "")
+            try:
+                case["seqs"] = [eval(bad)]
+            except Exception:
+                pass
+            ctx.fail(case, "; ".join(msgs[:3]), sig="reuse:" + shard["kind"])
+        return
     if sub == "lq":
         case = {"sub": "lq", "cfg": shard["cfg"], "seed": ctx.seed}
         msgs = eval_case(case)
@@ -364,7 +505,7 @@ def replay(ctx, case):
 
 def finish(merged, cov):
     o = merged.outcomes
-    for need in ("params:slots0:nosig", "params:slots3:sig", "key:slots0:nosig", "key:slots2:sig", "lq-objects"):
+    for need in ("params:slots0:nosig", "params:slots3:sig", "key:slots0:nosig", "key:slots2:sig", "lq-objects", "reuse-histories:wk_params", "reuse-histories:wk_secretkey"):
         if not o.get(need):
             return "class %s never exercised" % need
     cov["states"] = merged.extra.get("abstract_states", 1)
